@@ -401,11 +401,28 @@ def _siblings(ck, repo):
     c = fv.maybe_call("parse_literal")
     ok = c is not None and [unparse(a) for a in c.args] == [f.positional_params[1]] and unparse(c.func.value) == f.positional_params[3]
     ck.ob("literals.scalar_coercer delegates to the scalar's parse_literal(node)", ok, f, c or f.node, construct="scalar:delegate")
-    rets = fv.returns()
-    good = [r for r in rets if unparse(r.value) == "CoercionResult(value=value)"]
-    bad = [r for r in rets if unparse(r.value) == "CoercionResult(value=UNDEFINED_VALUE)"]
-    ok = len(good) == 1 and len(bad) == 1 and len(rets) == 2 and fv.guarded(good[0], lambda t: t == "is_invalid_value(value)", "F")
-    ck.ob("literals.scalar_coercer: valid -> the parsed value, invalid or exception -> the invalid value", ok, f, f.node, construct="scalar:returns")
+    # on paths (the scalar's own failure followed into the handler): a parse that answered is handed on as it is - a value or the
+    # invalid marker itself - and a parse that raised is the invalid marker; never anything else
+    from ..pathtab import outcome_rows as _rows
+    call_txt = unparse(c) if c is not None else "?"
+    rows_ = _rows(fv, raising_stmts=[fv.stmt_of(c)] if c is not None else [])
+    ok, seen_ = bool(rows_), set()
+    for r_ in rows_:
+        ret_t = unparse(r_["ret"]) if r_["ret"] is not None else None
+        if r_["exit"] != "return_exit" or ret_t is None:
+            ok = False
+        elif r_["handlers"]:
+            seen_.add("raised")
+            ok = ok and ret_t == "CoercionResult(value=UNDEFINED_VALUE)"
+        else:
+            seen_.add("answered")
+            ok = ok and ret_t in (f"CoercionResult(value={call_txt})", "CoercionResult(value=UNDEFINED_VALUE)")
+            if ret_t == "CoercionResult(value=UNDEFINED_VALUE)":
+                # only when the parse answered the marker
+                inv = [o_ for t_, o_ in r_["conds"] if t_.replace(" ", "") in (f"is_invalid_value({call_txt})".replace(" ", ""), f"{call_txt}isUNDEFINED_VALUE".replace(" ", ""))]
+                ok = ok and bool(inv) and inv[-1] == "T"
+    ck.ob("literals.scalar_coercer: valid -> the parsed value, invalid or exception -> the invalid value", ok and seen_ == {"raised", "answered"}, f, f.node, construct="scalar:returns",
+          detail=str(sorted(seen_)))
     # ---- enum
     f = repo.func(LIT + "enum_coercer.py", "enum_coercer")
     fv = FuncView(f)
@@ -439,43 +456,7 @@ def _siblings(ck, repo):
     ck.ob("literals.input_object_coercer: declared fields come from the input object type; provided fields are indexed by name",
           src.get("input_fields") == f"{p[3]}.input_fields" and src.get("field_nodes", "").startswith("{field_node.name.value: field_node for field_node in"), f, f.node,
           construct="object:declared")
-    zips = [l for l in fv.loops() if isinstance(l, ast.For) and isinstance(l.iter, ast.Call) and dotted(l.iter.func) == "zip"]
-    ok = len(zips) == 1 and [unparse(a) for a in zips[0].iter.args] == ["input_fields", "results"]
-    ck.ob("literals.input_object_coercer: results are paired with field names by zipping the same mapping", ok, f, zips[0] if zips else f.node, construct="object:zip")
-    if zips:
-        lp = zips[0]
-        nm, rs = [unparse(e) for e in lp.target.elts]
-        st = [n for n in walk_no_nested(lp) if isinstance(n, ast.Assign) and isinstance(n.targets[0], ast.Subscript)]
-        ok = len(st) == 1 and unparse(st[0].targets[0]) == f"coerced_values[{nm}]" and (f"{rs} is SKIP_FIELD", "F") in fv.conditions(st[0])
-        ck.ob("literals.input_object_coercer: an omitted optional field is not stored; others are stored under their name", ok, f, st[0] if st else lp, construct="object:store")
-        oatoms = Atoms({f"{rs} is SKIP_FIELD": "skip", f"is_invalid_value({rs})": "undef_result", "is_invalid_value(input_field_value)": "undef_value", "input_field_errors": "has_errors",
-                        "errors": "earlier_errors"})
-
-        def olabel(n):
-            t = n.text()
-            if n.kind != "stmt":
-                return None
-            if t == "return CoercionResult(value=UNDEFINED_VALUE)":
-                return "invalid"
-            if t == "errors.extend(input_field_errors)":
-                return "errors"
-            if t == f"coerced_values[{nm}] = input_field_value":
-                return "keep"
-            return None
-        for sk, ur, uv, he, ee in itertools.product([False, True], repeat=5):
-            if (sk and (ur or uv or he)) or (ur and (uv or he)):
-                continue
-            val = {"skip": sk, "undef_result": ur, "undef_value": uv, "has_errors": he, "earlier_errors": ee}
-            want = set() if sk else ({"invalid", "<return>"} if (ur or uv) else ({"errors"} if he else (set() if ee else {"keep"})))
-            got = iteration_outcomes(fv.cfg, lp, lambda n, env: evaluate(n.ast, env, val, oatoms), olabel)
-            ck.ob(f"literals.input_object_coercer per-field table {val}", got == {frozenset(want)}, f, lp, construct="object:field-table:" + "".join(str(int(v)) for v in val.values()),
-                  detail=f"effects {sorted(map(sorted, got))}, want {sorted(want)}" + oatoms.note())
-        fin = [r for r in fv.returns() if not contains(lp, r) and r not in bad]
-        ck.ob("literals.input_object_coercer returns the coerced fields and all errors", len(fin) == 1 and unparse(fin[0].value) == "CoercionResult(value=coerced_values, errors=errors)", f,
-              fin[0] if fin else f.node, construct="object:return")
-        inv = [r for r in fv.returns() if contains(lp, r)]
-        ck.ob("literals.input_object_coercer: a missing required field or an invalid field invalidates the object",
-              len(inv) == 2 and all(unparse(r.value) == "CoercionResult(value=UNDEFINED_VALUE)" for r in inv), f, inv[0] if inv else lp, construct="object:invalid")
+    literal_input_object_terms(ck, repo)
     g = repo.func(LIT + "input_object_coercer.py", "input_field_value_coercer")
     gv = FuncView(g)
     q = g.positional_params  # input_field, parent_node, value_node, ctx, variables, path
@@ -612,25 +593,143 @@ def arguments_coercers_positional(ck, repo):
     ok = len(r) == 1 and unparse(strip_await(r[0].value)) == "asyncio.gather(*coroutines, return_exceptions=True)" and isinstance(r[0].value, ast.Await)
     ck.ob("gather_arguments_coercer: one result per coroutine, in order, failures as values (asyncio.gather with return_exceptions=True)", ok, g, r[0] if r else g.node,
           construct="positional:gather")
-    f = repo.func("tartiflette/resolver/default.py", "sync_arguments_coercer")
-    fv = FuncView(f)
-    lps = [l for l in fv.loops() if isinstance(l, ast.For) and unparse(l.iter) == (f.node.args.vararg.arg if f.node.args.vararg else "?")]
-    ok, detail = False, None
-    if len(lps) == 1:
-        ap = [c for c in fv.calls("append") if contains(lps[0], c)]
-        out = iteration_outcomes(fv.cfg, lps[0], lambda n, env: None, lambda n: "append" if (n.kind == "stmt" and ap and any(contains(n.ast, a) for a in ap)) else (
-            "handler" if n.kind == "handler" else None), into_handlers=True)
-        detail = str(sorted(sorted(o) for o in out))
-        hs = fv.handlers()
-        hb = len(hs) == 1 and hs[0].name and any(isinstance(n, ast.Assign) and unparse(n.value) == hs[0].name for n in hs[0].body)
-        appended = unparse(ap[0].args[0]) if len(ap) == 1 else None
-        aw = [n for n in walk_no_nested(lps[0]) if isinstance(n, ast.Assign) and isinstance(n.value, ast.Await) and unparse(n.value.value) == unparse(lps[0].target)]
-        ok = len(ap) == 1 and bool(out) and all("append" in o and "<return>" not in o and "<raise>" not in o for o in out) and any("handler" in o for o in out) and hb and len(aw) == 1 and \
-            appended == unparse(aw[0].targets[0]) and any(isinstance(n, ast.Assign) and unparse(n.targets[0]) == appended for n in hs[0].body) and \
-            not any(isinstance(n, (ast.Break, ast.Continue, ast.Return)) for n in walk_no_nested(lps[0])) and unparse(ap[0].func.value) == unparse(fv.returns()[0].value)
-    ck.ob("sync_arguments_coercer: every iteration - normal or failing - appends exactly one entry (the awaited value or the exception) and the list is returned", ok, f,
-          lps[0] if lps else f.node, construct="positional:sync", detail=detail)
+    sync_arguments_terms(ck, repo, "positional:sync")
     d = repo.func("tartiflette/schema/schema.py", "GraphQLSchema.bake")
     st = [n for n in ast.walk(d.node) if isinstance(n, ast.Assign) and unparse(n.targets[0]) == "self.default_arguments_coercer"]
     ok = len(st) == 1 and unparse(st[0].value) == f"custom_default_arguments_coercer or gather_arguments_coercer"
     ck.ob("the schema's default arguments coercer is the custom one, else gather_arguments_coercer", ok, d, st[0] if st else d.node, construct="positional:default")
+
+
+def sync_arguments_terms(ck, repo, construct):
+    """E13: sync_arguments_coercer interpreted on zero to three abstract awaitables, each succeeding or failing: the answer is a
+    list with exactly one entry per operand, in order - the awaited value, or the exception itself - and a failing operand does
+    not stop the later ones (shared by C05.R2 and C08.R3).  A failure that is not an `Exception` (cancellation) propagates."""
+    from .. import absint
+    from ..absint import RecV, Sym
+    import itertools as _it
+    f = repo.func("tartiflette/resolver/default.py", "sync_arguments_coercer")
+    n = 0
+    for k in range(4):
+        for fails in _it.product((False, True), repeat=k):
+            ops, want = [], []
+            for i, bad in enumerate(fails):
+                if bad:
+                    exc = RecV("ValueError", bases=("Exception",), _label=f"<failure {i}>")
+                    ops.append(RecV("Awaitable", _raises=exc, _label=f"<failing awaitable {i}>"))
+                    want.append(exc)
+                else:
+                    v = Sym(f"value_{i}")
+                    ops.append(v)
+                    want.append(v)
+            it = absint.Interp(repo, f.module)
+            try:
+                got = it.run(f, ops)
+                why = None
+            except absint.Unsupported as ex:
+                raise AnalysisError(f"{f.short}: cannot be interpreted on abstract awaitables: {ex}")
+            except absint.PyRaise as ex:
+                got, why = None, f"raises {ex.name}"
+            n += 1
+            ok = why is None and isinstance(got, list) and len(got) == len(want) and all(a is b or absint.norm(a) == absint.norm(b) for a, b in zip(got, want))
+            ck.ob(f"sync_arguments_coercer [{''.join('x' if b else 'v' for b in fails) or 'no operand'}]: one entry per operand, in order, the awaited value or the exception itself", ok, f, f.node,
+                  construct=construct, detail=why or f"got {got!r}")
+    # cancellation is not an Exception: it must not be turned into a value
+    stop = RecV("CancelledError", bases=("BaseException",), _label="<cancelled>")
+    it = absint.Interp(repo, f.module)
+    try:
+        got = it.run(f, [Sym("value_0"), RecV("Awaitable", _raises=stop, _label="<cancelled awaitable>")])
+        ok = False
+    except absint.PyRaise as ex:
+        ok = ex.value is stop
+    except absint.Unsupported as ex:
+        raise AnalysisError(f"{f.short}: cannot be interpreted on abstract awaitables: {ex}")
+    ck.ob("sync_arguments_coercer: a cancellation propagates (only an Exception becomes a value)", ok, f, f.node, construct=construct + ":cancel")
+    ck.count("sync_arguments_shapes", n, 15)
+
+
+def literal_input_object_terms(ck, repo):
+    """E13: literals.input_object_coercer interpreted on an input object type of three declared fields, every combination of
+    what the per-field coercion answers (skipped / the bare undefined marker / an undefined value / a value / a value with
+    errors): the answer pairs every result with *its own* field name, in declaration order - an omitted optional field is not
+    stored, a missing required or invalid field invalidates the whole object, errors accumulate and suppress the values that
+    follow - whatever the loop looks like (one loop, a filtering comprehension first)."""
+    from .. import absint
+    from ..absint import App, RecV, Sym
+    import itertools as _it
+    f = repo.func(LIT + "input_object_coercer.py", "input_object_coercer")
+    mod = f.module
+    UNDEF = Sym(repo.resolve_name(mod, "UNDEFINED_VALUE"))
+    skip_name = repo.resolve_name(mod, "SKIP_FIELD") or "SKIP_FIELD"
+    names = ["alpha", "beta", "gamma"]
+    kinds = ("skip", "undef", "undef-value", "value", "errors")
+    n = 0
+    bad = []
+    for combo in _it.product(kinds, repeat=3):
+        calls = []
+
+        def field_coercer(args, kwargs, _combo=combo):
+            fld = args[0]
+            i_ = names.index(fld.attrs["name"])
+            calls.append((fld.attrs["name"], args[2], kwargs.get("path")))
+            k_ = _combo[i_]
+            if k_ == "skip":
+                return it.lookup("SKIP_FIELD", it.genv, None)
+            if k_ == "undef":
+                return UNDEF
+            if k_ == "undef-value":
+                return (UNDEF, None)
+            if k_ == "value":
+                return (Sym(f"value_{fld.attrs['name']}"), None)
+            return (Sym(f"value_{fld.attrs['name']}"), [Sym(f"error_{fld.attrs['name']}")])
+
+        it = absint.Interp(repo, mod, interpret={"tartiflette.utils.values.is_invalid_value"},
+                           stubs={"tartiflette.coercers.literals.input_object_coercer.input_field_value_coercer": field_coercer,
+                                  "asyncio.gather": lambda a, k: list(a),
+                                  "tartiflette.coercers.common.CoercionResult": lambda a, k: (k.get("value", a[0] if a else None), k.get("errors", a[1] if len(a) > 1 else None))})
+        fields = {nm: RecV("GraphQLInputField", name=nm, _label=f"<field {nm}>", _strict=True) for nm in names}
+        otype = RecV("GraphQLInputObjectType", input_fields=fields, _strict=True)
+        # the literal provides alpha and gamma (beta is absent from the literal)
+        node = RecV("ObjectValueNode", fields=[RecV("ObjectFieldNode", name=RecV("NameNode", value=nm, _strict=True), _label=f"<node {nm}>", _strict=True) for nm in ("gamma", "alpha")], _strict=True)
+        try:
+            got = it.run(f, [Sym("PARENT"), node, Sym("CTX"), otype, Sym("VARS"), Sym("PATH")])
+            why = None
+        except absint.Unsupported as ex:
+            raise AnalysisError(f"{f.short}: cannot be interpreted on abstract fields: {ex}")
+        except absint.PyRaise as ex:
+            got, why = None, f"raises {ex.name} ({ex.text})"
+        # the specification
+        values, errors, invalid = {}, [], False
+        for nm, k_ in zip(names, combo):
+            if k_ == "skip":
+                continue
+            if k_ in ("undef", "undef-value"):
+                invalid = True
+                break
+            if k_ == "errors":
+                errors.append(Sym(f"error_{nm}"))
+            elif not errors:
+                values[nm] = Sym(f"value_{nm}")
+        want = (UNDEF, None) if invalid else (values, errors)
+        n += 1
+        ok = why is None and isinstance(got, tuple) and len(got) == 2 and absint.norm(got[0]) == absint.norm(want[0]) and \
+            (list(got[0]) == list(want[0]) if isinstance(want[0], dict) and isinstance(got[0], dict) else True) and absint.norm(got[1]) == absint.norm(want[1])
+        # one coercion per declared field, fed its own node (or the undefined marker) and Path(path, field)
+        ok_calls = [c_[0] for c_ in calls] == names and all(
+            (isinstance(c_[1], RecV) and c_[1].attrs.get("_label") == f"<node {c_[0]}>") if c_[0] in ("alpha", "gamma") else absint.norm(c_[1]) == absint.norm(UNDEF) for c_ in calls) and \
+            all(isinstance(c_[2], App) and repr(c_[2].func).endswith("Path") and len(c_[2].args) == 2 and c_[2].args[1] == c_[0] for c_ in calls)
+        if not (ok and ok_calls):
+            bad.append((combo, why or f"got {got!r}; calls {[(c_[0], repr(c_[1])) for c_ in calls]}"))
+    for combo, why in bad[:6]:
+        ck.ob(f"literals.input_object_coercer [{', '.join(combo)}]: every result paired with its own field, in declaration order", False, f, f.node,
+              construct="object:field-table:" + "/".join(combo), detail=why)
+    ck.ob("literals.input_object_coercer: one coercion per declared field (its own node or the undefined marker, Path(path, field)); results paired with their own names in declaration order; "
+          "skipped fields not stored; an undefined result or value invalidates the object; errors accumulate and suppress later values", not bad, f, f.node, construct="object:zip", evals=n)
+    ck.count("literal_input_object_shapes", n, 120)
+    # a node that is not an object literal is invalid
+    it = absint.Interp(repo, mod, stubs={"tartiflette.coercers.common.CoercionResult": lambda a, k: (k.get("value"), k.get("errors"))})
+    try:
+        got = it.run(f, [Sym("PARENT"), RecV("IntValueNode", _strict=True), Sym("CTX"), RecV("GraphQLInputObjectType", input_fields={}, _strict=True), Sym("VARS"), Sym("PATH")])
+        ok = isinstance(got, tuple) and absint.norm(got[0]) == absint.norm(UNDEF)
+    except (absint.PyRaise, absint.Unsupported):
+        ok = False
+    ck.ob("literals.input_object_coercer: a value that is not an object literal is invalid", ok, f, f.node, construct="object:not-an-object")
